@@ -27,8 +27,10 @@ def gen_dir(rng, depth, max_depth, counter, force_index=False):
     if depth < max_depth:
         for _ in range(rng.randint(0, 2 if depth else 3)):
             d["dirs"][names.pop()] = gen_dir(rng, depth + 1, max_depth, counter)
-    if rng.random() < 0.25:
+    if rng.random() < 0.3:
         d["assets"].append("assets")
+    if rng.random() < 0.2:
+        d["assets"].append("figs")
     # ordered_subpage on the index: valid, partial; (entries naming missing files are a separate option)
     if d["index"] is not None:
         entries = [p + ".md" for p in d["pages"]] + list(d["dirs"])
@@ -82,12 +84,15 @@ def add_links(rng, top):
     if model is None:
         return
     targets = sorted(flatten(model))
+    # a few popular targets: the same link then appears on several pages, at the same and at
+    # different depths, in different directories
+    popular = rng.sample(targets, min(2, len(targets)))
     for rel, page, is_index in all_pages(top):
         if page["title"] is None or not targets:
             continue
         for _ in range(rng.randint(0, 3)):
             kind = rng.choice(["page_alias", "relative", "media", "url"])
-            tgt = rng.choice(targets)
+            tgt = rng.choice(popular) if rng.random() < 0.7 else rng.choice(targets)
             page["links"].append([kind, tgt])
 
 
